@@ -332,9 +332,7 @@ class PaginatePageBy(_Paginate):
             if okinfo:
                 df_, cols_, start_ = st.obj(info).items["__of__"]
                 ob("C05.page_headings_come_from_the_pages_first_row", And(z3.BoolVal(df_ == vv["df"] and cols_ == body.fields["page_by"]), to_z3(start_) == mv.first(p)))
-                # C03: render step 7 shows these headings at the top of the page; rows for them are budgeted only on a group-start row
-                # (RowMetadata: heading rows > 0 only where the page_by key changes), so a page that CONTINUES a group shows unbudgeted rows
-                ob("C03.page_top_headings_of_a_continuation_page_are_budgeted", mv.group_start(mv.first(p)))
+                # (C03: the rows these page-top headings take are budgeted by _assign_pages through continuation_header_rows of the page's first row)
             gb = po.fields.get("group_boundaries")
             # boundaries are stored iff non-empty, computed over exactly this page's row range with the page_by columns
             if gb is not None:
